@@ -54,28 +54,8 @@ theorem parseLines_no_internal (ls : List Str) : parseLines ls ≠ .internal ∧
 address 65536 -- is now a diagnostic ("outside the 64K address space") -/
 def C13_formerWitness : List Str := [" ORG $FFFF\n", " NOP\n", " NOP\n"].map String.toList
 
-/-- a program without INCLUDE whose assembly (computed by `assembleFrom`) ends in `diag` -/
-private def endsDiag (lines : List Str) : Bool :=
-  match parseLines lines with
-  | .ok p => p.all (fun s => !s.row.isInclude) &&
-      (match assembleFrom p with | .diag => true | _ => false)
-  | _ => false
-
-private theorem endsDiag_sound {lines : List Str} (h : endsDiag lines = true) (fs : Files) :
-    assemble fs lines = .diag := by
-  unfold endsDiag at h
-  split at h
-  · rename_i p hp
-    simp only [Bool.and_eq_true] at h
-    obtain ⟨h1, h2⟩ := h
-    split at h2
-    · rename_i ha
-      rw [assemble_eq_from hp (expand_noinclude fs 63 [] p h1), ha]
-    · cases h2
-  · cases h
-
 theorem C13_formerWitness_diag (fs : Files) : assemble fs C13_formerWitness = .diag :=
-  endsDiag_sound (by decide +kernel) fs
+  diagProgram_sound (by decide +kernel) fs
 
 /-- witness 1: a chain of 65 nested INCLUDE files (`fsDeep` of Props/C19.lean).  The model's `expand` runs out of
 its fuel of 64, which stands for Python's RecursionError escaping `Program.process`. -/
